@@ -1,6 +1,11 @@
 //! `vm` engine — a replicated-node simulation around the real interpreter (DESIGN §4.1).
 pub mod asm;
 pub mod exec;
+pub mod mon_access;
+pub mod mon_flow;
+pub mod mon_mem;
+pub mod observe_run;
+pub mod observer;
 pub mod pgen;
 pub mod plan;
 pub mod replicas;
@@ -65,6 +70,7 @@ impl Engine for VmEngine {
                     }
                 }
             }
+            "C24" | "C25" | "C30" | "C34" => observe_run::run(prop, &world, sc, ctx),
             _ => {}
         }
     }
@@ -220,7 +226,7 @@ fn describe(prop: &str) -> EngineDescription {
 
 pub static VM: EngineDef = EngineDef {
     name: "vm",
-    props: &["C28", "C29", "C31", "C32"],
+    props: &["C24", "C25", "C28", "C29", "C30", "C31", "C32", "C34"],
     generate: gen_erased::<VmEngine>,
     run: run_erased::<VmEngine>,
     shrink: shrink_erased::<VmEngine>,
@@ -231,6 +237,8 @@ pub static VM: EngineDef = EngineDef {
         "C32" => (8_000, 300_000),
         "C28" => (15_000, 500_000),
         "C29" => (30_000, 800_000),
+        "C24" => (8_000, 300_000),
+        "C25" | "C30" | "C34" => (10_000, 400_000),
         _ => (20_000, 500_000),
     },
 };
